@@ -93,6 +93,10 @@ NUM_ATOMS = {
     "I(x > 0)": dict(vars_=["x"], fn=lambda t, d: (d["x"].to_numpy(dtype=float) > 0).astype(float)),
     "dbl(x)": dict(vars_=["x"], fn=lambda t, d: d["x"].to_numpy(dtype=float) * 2),
     "shift1(z, by=3)": dict(vars_=["z"], fn=lambda t, d: d["z"].to_numpy(dtype=float) + 3),
+    "shift1(z, by=w)": dict(vars_=["z", "w"], fn=lambda t, d: d["z"].to_numpy(dtype=float) + d["w"].to_numpy(dtype=float)),
+    "np.log(np.exp(x))": dict(vars_=["x"], fn=lambda t, d: np.log(np.exp(d["x"].to_numpy(dtype=float)))),
+    "dbl(shift1(`col 1`, by=cnt))": dict(vars_=["col 1", "cnt"], name="dbl(shift1(col 1, by=cnt))",
+                                         fn=lambda t, d: 2 * (d["col 1"].to_numpy(dtype=float) + d["cnt"].to_numpy(dtype=float))),
     "np.power(w, 2)": dict(vars_=["w"], fn=lambda t, d: d["w"].to_numpy(dtype=float) ** 2),
     "I(`col 1` + 1)": dict(vars_=["col 1"], fn=lambda t, d: d["col 1"].to_numpy(dtype=float) + 1, name="I(col 1 + 1)"),
     # stateful transforms: parameters from the TRAINING frame
@@ -300,7 +304,8 @@ def _name(text):
 PROFILES = {
     # what C04 judges: numeric variables / pointwise calls and treatment coded factors
     "plain": dict(
-        num=["x", "z", "w", "cnt", "`col 1`", "np.log(w)", "I(x ** 2)", "{x * 2}", "dbl(x)", "I(x + z)"],
+        num=["x", "z", "w", "cnt", "`col 1`", "np.log(w)", "I(x ** 2)", "{x * 2}", "dbl(x)", "I(x + z)",
+             "shift1(z, by=w)", "np.log(np.exp(x))", "dbl(shift1(`col 1`, by=cnt))"],
         cat=["s", "h", "o", "cu", "co", "C(k)", "`c:1`", "C(s)", "T(h)", "I(s)", "tag(h)"],
         fac=["g", "g2", "s", "co", "C(k)", "cu"],
     ),
